@@ -154,3 +154,45 @@ func VerifRecordStateOf(c *Conn) VerifRecordState {
 	st.Suite = c.cipherSuite
 	return st
 }
+
+// VerifWritePaddedRecord sends data as ONE TLS 1.3 application_data record whose inner plaintext is
+// followed by pad zero bytes of record padding (RFC 8446, Section 5.4), protected under c's current
+// write key: what a peer that pads its records does. The library's own writer never pads, so this
+// is the only way to show its reader a padded record. It is a method (not a function) so that a
+// harness can probe for it with an interface assertion and still build without it.
+func (c *Conn) VerifWritePaddedRecord(data []byte, pad int) error {
+	if !c.isHandshakeComplete.Load() || c.vers != VersionTLS13 {
+		return errors.New("verif: record padding needs a completed TLS 1.3 handshake")
+	}
+	if pad < 0 || len(data)+pad > maxPlaintext {
+		return errors.New("verif: padded record too long")
+	}
+	c.out.Lock()
+	defer c.out.Unlock()
+	if err := c.out.err; err != nil {
+		return err
+	}
+	if c.closeNotifySent {
+		return errShutdown
+	}
+	// halfConn.encrypt appends record[0] to the payload as the inner content type and then sets the
+	// outer type: with padding the real type is put behind the data here and record[0] = 0 becomes
+	// the last padding byte.
+	hdr := []byte{byte(recordTypeApplicationData), 0x03, 0x03, 0, 0}
+	inner := data
+	if pad > 0 {
+		inner = make([]byte, 0, len(data)+pad)
+		inner = append(inner, data...)
+		inner = append(inner, byte(recordTypeApplicationData))
+		inner = append(inner, make([]byte, pad-1)...)
+		hdr[0] = 0
+	}
+	rec, err := c.out.encrypt(hdr, inner, c.config.rand())
+	if err != nil {
+		return c.out.setErrorLocked(err)
+	}
+	if _, err := c.write(rec); err != nil {
+		return c.out.setErrorLocked(err)
+	}
+	return nil
+}
